@@ -6,6 +6,7 @@ inferred, on the real `iter_utils.rebatched_args`, plus the same law through
 the pipeline operators (`apply/select(batch_size=, fn_batch_size=)`, `batch`).
 Oracle: column-wise concatenation chunked by the target (a Python list).
 """
+import functools
 import itertools as itt
 
 import numpy as np
@@ -41,8 +42,12 @@ def _tolist(x):
   return x.tolist() if isinstance(x, np.ndarray) else list(x)
 
 
+@functools.lru_cache(maxsize=256)
 def reference(sizes, target, ncol, pad):
-  """Expected output as lists: [[col0 rows, col1 rows, ...], ...]."""
+  """Expected output as lists: [[col0 rows, col1 rows, ...], ...].
+
+  Cached: the result is only ever compared, never handed to the library.
+  """
   n = sum(sizes)
   cols = [[c * 1000 + r for r in range(n)] for c in range(ncol)]
   out = []
@@ -75,7 +80,7 @@ def check_rebatched(st, sizes, target, ncol, kinds, pad, infer):
     st.violation(f'C19:rebatched_args:{where}:{type(e).__name__}',
                  {'case': case, 'error': repr(e)}, replay={'case': case})
     return
-  st.outcome((len(got), tuple(len(_tolist(b[0])) for b in got)))
+  st.outcome((len(got), tuple(len(b[0]) for b in got)))
   problems = []
   if len(got) != len(exp):
     problems.append('batch-count')
@@ -83,14 +88,13 @@ def check_rebatched(st, sizes, target, ncol, kinds, pad, infer):
     if not isinstance(g, tuple) or len(g) != ncol:
       problems.append('column-count')
       break
-    for c in range(ncol):
-      if _tolist(g[c]) != e[c]:
-        problems.append('rows')
-      if _kind_of(g[c]) != kinds[c] and len(sizes) and not (
-          # a single-row slice keeps its container kind too
-          False):
-        problems.append('container-kind')
-    lens = {len(_tolist(g[c])) for c in range(ncol)}
+    lists = [_tolist(col) for col in g]
+    if lists != e:
+      problems.append('rows')
+    if len(sizes) and any(_kind_of(g[c]) != kinds[c] for c in range(ncol)):
+      # a single-row slice keeps its container kind too
+      problems.append('container-kind')
+    lens = set(map(len, lists))
     if len(lens) != 1:
       problems.append('ragged-columns')
     if bi < len(got) - 1 and lens != {target}:
@@ -189,64 +193,367 @@ def _mixed_unit(args):
   return st
 
 
-# ---- the same law through the pipeline operators ---------------------------
+# ---- columns whose rows are not scalars --------------------------------------
+#
+# A column spec is (kind, row_shape), a layout a tuple of specs (see
+# vmc/oracles/rebatch_ref.py).  ('ndarray', (2,)) is an (n, 2) array,
+# ('ndarray', (2, 2)) an (n, 2, 2) array, ('list', (2,)) a list of n 2-lists.
 
-def _pipeline_unit(args):
-  from ml_metrics._src.chainables import transform as chainable
-  from ml_metrics._src.chainables import tree as tree_lib
-  size_seqs, targets = args
+ND = lambda *shape: ('ndarray', tuple(shape))
+LS = lambda *shape: ('list', tuple(shape))
+TP = lambda *shape: ('tuple', tuple(shape))
+
+
+def _dedupe(xs):
+  return list(dict.fromkeys(xs))
+
+
+def row_layouts(quick):
+  """Layouts with at least one column whose rows are not scalars."""
+  if quick:
+    singles = [ND(1), ND(2), ND(3), ND(2, 2), LS(2), TP(2)]
+    wide = [ND(2), ND(2, 2)]
+    partners = [ND(), LS(), ND(2), ND(3), LS(2)]
+    triples = [(ND(2, 2), ND(), LS(2))]
+    rotations_only = True
+  else:
+    singles = [ND(1), ND(2), ND(3), ND(2, 2), ND(2, 3), ND(1, 2), LS(2),
+               LS(2, 2), TP(2), TP(3)]
+    wide = [ND(2), ND(3), ND(2, 2), ND(2, 3)]
+    partners = [ND(), LS(), TP(), ND(1), ND(2), ND(3), ND(2, 2), LS(2), TP(2)]
+    triples = [(ND(2, 2), ND(), LS(2)), (ND(2), ND(3), TP())]
+    rotations_only = False
+  out = [(s,) for s in singles]
+  for x in wide:
+    for y in partners:
+      out += [(x, y), (y, x)]
+  for t in triples:
+    if rotations_only:
+      out += [t[i:] + t[:i] for i in range(3)]
+    else:
+      out += list(itt.permutations(t))
+  return _dedupe(out)
+
+
+@functools.lru_cache(maxsize=None)
+def _master(c, shape):
+  """Rows 0..63 of column c as one read-only array (built from the oracle's rows)."""
+  from vmc.oracles import rebatch_ref
+  a = np.asarray(rebatch_ref.rows(c, 0, 64, shape), dtype=np.int64)
+  a.setflags(write=False)
+  return a
+
+
+def _mk_col(spec, c, lo, hi):
+  """A fresh batch (never shared between cases: the library may keep or alter it)."""
+  kind, shape = spec
+  part = _master(c, shape)[lo:hi]
+  if kind == 'ndarray':
+    return part.copy()
+  return part.tolist() if kind == 'list' else tuple(part.tolist())
+
+
+def make_row_stream(sizes, layout):
+  from vmc.oracles import rebatch_ref
+  offs = rebatch_ref.offsets(sizes)
+  return [tuple(_mk_col(spec, c, lo, hi) for c, spec in enumerate(layout))
+          for lo, hi in zip(offs, offs[1:])]
+
+
+def _col_problems(g, exp_rows, spec):
+  """Problems of one emitted column batch g against the expected rows."""
+  kind, shape = spec
+  out = []
+  if _kind_of(g) != kind:
+    out.append('container-kind')
+  if isinstance(g, np.ndarray):
+    if g.dtype != np.int64:
+      out.append('dtype')
+    if g.shape[1:] != shape:
+      out.append('row-shape')
+  if _tolist(g) != exp_rows:
+    out.append('rows')
+  return out
+
+
+def _is_widened_pad(g, exp_rows, spec, pad):
+  """True iff g is the expected padded batch plus extra pad elements only.
+
+  I.e. the array has the right number of rows, the box [:, :d, :e] holds the
+  expected rows and everything outside it is the pad value: the rows were not
+  lost or reordered, every row was made longer.
+  """
+  if not isinstance(g, np.ndarray) or g.ndim != 1 + len(spec[1]):
+    return False
+  if g.shape[0] != len(exp_rows) or g.shape[1:] == spec[1]:
+    return False
+  if any(a < b for a, b in zip(g.shape[1:], spec[1])):
+    return False
+  box = (slice(None),) + tuple(slice(0, d) for d in spec[1])
+  if g[box].tolist() != exp_rows:
+    return False
+  rest = np.ones(g.shape, dtype=bool)
+  rest[box] = False
+  return bool((g[rest] == pad).all())
+
+
+def check_rebatched_rows(st, sizes, target, layout, pad, infer):
+  """rebatched_args on a layout with non-scalar rows against the reference."""
+  from ml_metrics._src.utils import iter_utils
+  from vmc.oracles import rebatch_ref
+  case = ('rebatched_args:rows', sizes, target, layout, pad, infer)
+  st.case(case, nontrivial=len(sizes) > 0)
+  ncol = len(layout)
+  exp = rebatch_ref.chunked(sizes, target, layout, pad)
+  try:
+    kw = {} if infer else {'num_columns': ncol}
+    got = list(iter_utils.rebatched_args(
+        iter(make_row_stream(sizes, layout)), target, pad=pad, **kw))
+  except Exception as e:  # pylint: disable=broad-except
+    where = 'empty-stream-inferred-columns' if (not sizes and infer) else 'raise'
+    st.violation(f'C19:rebatched_args:rows:{where}:{type(e).__name__}',
+                 {'case': case, 'error': repr(e)}, replay={'rows': case})
+    return
+  try:
+    st.outcome((len(got), tuple(len(b[0]) for b in got)))
+  except Exception:  # pylint: disable=broad-except
+    st.outcome('malformed')
+  problems, widened = [], 0
+  if len(got) != len(exp):
+    problems.append('batch-count')
+  for bi, (g, e) in enumerate(zip(got, exp)):
+    if not isinstance(g, tuple) or len(g) != ncol:
+      problems.append('column-count')
+      break
+    padded = (pad is not None and bi == len(exp) - 1 and
+              sum(sizes) % target != 0)
+    for c in range(ncol):
+      ps = _col_problems(g[c], e[c], layout[c])
+      if ps and padded and _is_widened_pad(g[c], e[c], layout[c], pad):
+        widened += 1
+        continue
+      problems += ps
+    lens = {len(g[c]) for c in range(ncol)}
+    if len(lens) != 1:
+      problems.append('ragged-columns')
+    if bi < len(got) - 1 and lens != {target}:
+      problems.append('non-final-batch-size')
+    if not all(lens):
+      problems.append('empty-batch')
+  detail = {'case': case, 'got': got, 'expected': exp}
+  if problems:
+    st.violation('C19:rebatched_args:rows:' + '+'.join(sorted(set(problems))),
+                 detail, replay={'rows': case})
+  elif widened:
+    # rows, order, alignment and batch sizes are all as expected; the only
+    # difference is that the padded final batch of an N-D array column has
+    # longer rows than the input (pad elements appended along every axis).
+    st.violation('C19:rebatched_args:rows:pad-lengthens-rows:nd-array-column',
+                 detail, replay={'rows': case})
+
+
+def _rows_unit(args):
+  size_seqs, targets, layouts, variants = args
   st = Stats()
   for sizes in size_seqs:
-    n = sum(sizes)
-    batches = [list(range(i, i + s)) for i, s in
-               zip(itt.accumulate((0,) + tuple(sizes[:-1])), sizes)]
     for target in targets:
-      exp = [list(range(i, min(i + target, n))) for i in range(0, n, target)]
-      # (a) apply(batch_size=target): outputs re-batched to target
-      for name, build in (
-          ('apply.batch_size', lambda t: chainable.TreeTransform().apply(
-              fn=lambda x: x, batch_size=t)),
-          ('apply.fn_batch_size', lambda t: chainable.TreeTransform().apply(
-              fn=lambda x: x, fn_batch_size=t, batch_size=t)),
-          ('select.batch_size', lambda t: chainable.TreeTransform().select(
-              tree_lib.Key.SELF, batch_size=t)),
-      ):
-        case = (name, tuple(sizes), target)
-        st.case(case, nontrivial=n > 0)
-        try:
-          got = [list(b) for b in build(target).make().iterate(iter(batches))]
-        except Exception as e:  # pylint: disable=broad-except
-          st.violation(f'C19:{name}:raise:{type(e).__name__}',
-                       {'case': case, 'error': repr(e)}, replay={'case': case})
-          continue
-        st.outcome((name, tuple(map(len, got))))
-        if got != exp:
-          st.violation(f'C19:{name}:rows', {'case': case, 'got': got,
-                                            'expected': exp},
-                       replay={'case': case})
-      # (b) fn_batch_size smaller/larger than batch_size: fn sees fn_batch_size
-      for fbs in targets:
-        seen = []
-        def fn(x, seen=seen):
-          seen.append(list(x))
-          return x
-        case = ('apply.fn_batch_size!=batch_size', tuple(sizes), fbs, target)
-        st.case(case, nontrivial=n > 0)
-        try:
-          t = chainable.TreeTransform().apply(
-              fn=fn, fn_batch_size=fbs, batch_size=target)
-          got = [list(b) for b in t.make().iterate(iter(batches))]
-        except Exception as e:  # pylint: disable=broad-except
-          st.violation(f'C19:apply.fn_batch_size+batch_size:raise:{type(e).__name__}',
-                       {'case': case, 'error': repr(e)}, replay={'case': case})
-          continue
-        exp_fn = [list(range(i, min(i + fbs, n))) for i in range(0, n, fbs)]
-        if got != exp or seen != exp_fn:
-          st.violation('C19:apply.fn_batch_size+batch_size:rows',
-                       {'case': case, 'got': got, 'expected': exp,
-                        'fn_saw': seen, 'fn_expected': exp_fn},
-                       replay={'case': case})
+      for layout in layouts:
+        for pad, infer in variants:
+          check_rebatched_rows(st, tuple(sizes), target, layout, pad, infer)
+  if size_seqs:
+    st.sample({'driver': 'rebatched_args, non-scalar rows',
+               'input_batch_sizes': size_seqs[0], 'targets': list(targets),
+               'layouts': [str(l) for l in layouts[:8]]})
   return st
+
+
+# ---- the same law through the pipeline operators ---------------------------
+
+def pipeline_specs(quick):
+  """Column specs sent through the operators besides the plain list LS().
+
+  (A tuple batch is ambiguous there: TreeFn reads a tuple as several outputs.)
+  """
+  if quick:
+    return (ND(), ND(2), ND(2, 2), LS(2))
+  return (ND(), ND(1), ND(2), ND(3), ND(2, 2), ND(2, 3), LS(2), LS(2, 2))
+
+
+def pipeline_pairs(quick):
+  if quick:
+    return ((ND(2), ND()), (LS(), ND(2, 2)), (ND(2), LS(2)))
+  return ((ND(2), ND()), (ND(), ND(2)), (LS(), ND(2, 2)), (ND(2, 2), LS()),
+          (ND(2), LS(2)), (LS(2), ND(3)), (ND(2), ND(3)), (LS(), ND()))
+
+
+def _norm(x):
+  if isinstance(x, dict):
+    return {k: _norm(v) for k, v in x.items()}
+  if isinstance(x, np.ndarray):
+    return ('ndarray', str(x.dtype), x.tolist())
+  if isinstance(x, (list, tuple)):
+    return (_kind_of(x), list(x))
+  return repr(x)
+
+
+def _norm_exp(spec, rows):
+  if spec[0] == 'ndarray':
+    return ('ndarray', 'int64', rows)
+  return (spec[0], rows)
+
+
+def _spec_tag(layout):
+  """Signature part: 'scalar-rows' for the 1-D class, else 'rows-not-scalar'."""
+  return 'scalar-rows' if all(s[1] == () for s in layout) else 'rows-not-scalar'
+
+
+def _pipe_compare(st, name, case, layout, run_fn, exp):
+  st.case(case, nontrivial=bool(case[1]))
+  tag = _spec_tag(layout)
+  try:
+    got = run_fn()
+  except Exception as e:  # pylint: disable=broad-except
+    st.violation(f'C19:{name}:raise:{type(e).__name__}:{tag}',
+                 {'case': case, 'error': repr(e)}, replay={'pipe': case})
+    return None
+  st.outcome((name, tag, len(got)))
+  if got != exp:
+    st.violation(f'C19:{name}:rows:{tag}',
+                 {'case': case, 'got': got, 'expected': exp},
+                 replay={'pipe': case})
+  return got
+
+
+def check_pipeline_single(st, sizes, targets, spec):
+  """One column bound to Key.SELF through apply/select(batch_size, fn_batch_size)."""
+  from ml_metrics._src.chainables import transform as chainable
+  from ml_metrics._src.chainables import tree as tree_lib
+  from vmc.oracles import rebatch_ref
+  layout = (spec,)
+  batches = [b[0] for b in make_row_stream(sizes, layout)]
+  tag = _spec_tag(layout)
+
+  def chunks(t):
+    return [_norm_exp(spec, b[0])
+            for b in rebatch_ref.chunked(sizes, t, layout)]
+
+  for target in targets:
+    exp = chunks(target)
+    for name, build in (
+        ('apply.batch_size', lambda t: chainable.TreeTransform().apply(
+            fn=lambda x: x, batch_size=t)),
+        ('apply.fn_batch_size', lambda t: chainable.TreeTransform().apply(
+            fn=lambda x: x, fn_batch_size=t, batch_size=t)),
+        ('select.batch_size', lambda t: chainable.TreeTransform().select(
+            tree_lib.Key.SELF, batch_size=t)),
+    ):
+      case = (name, tuple(sizes), target, layout)
+      _pipe_compare(
+          st, name, case, layout,
+          lambda: [_norm(b) for b in
+                   build(target).make().iterate(iter(batches))], exp)
+    # fn_batch_size smaller/larger than batch_size: fn sees fn_batch_size
+    for fbs in targets:
+      seen = []
+      def fn(x, seen=seen):
+        seen.append(_norm(x))
+        return x
+      name = 'apply.fn_batch_size+batch_size'
+      case = (name, tuple(sizes), target, layout, fbs)
+      st.case(case, nontrivial=bool(sizes))
+      try:
+        t = chainable.TreeTransform().apply(
+            fn=fn, fn_batch_size=fbs, batch_size=target)
+        got = [_norm(b) for b in t.make().iterate(iter(batches))]
+      except Exception as e:  # pylint: disable=broad-except
+        st.violation(f'C19:{name}:raise:{type(e).__name__}:{tag}',
+                     {'case': case, 'error': repr(e)}, replay={'pipe': case})
+        continue
+      exp_fn = chunks(fbs)
+      st.outcome((name, tag, len(got), len(seen)))
+      if got != exp or seen != exp_fn:
+        st.violation(f'C19:{name}:rows:{tag}',
+                     {'case': case, 'got': got, 'expected': exp,
+                      'fn_saw': seen, 'fn_expected': exp_fn},
+                     replay={'pipe': case})
+
+
+def check_pipeline_pair(st, sizes, targets, layout):
+  """Two columns 'a', 'b' of a dict through apply/select/assign."""
+  from ml_metrics._src.chainables import transform as chainable
+  from vmc.oracles import rebatch_ref
+  stream = make_row_stream(sizes, layout)
+  keys = ('a', 'b')
+  pair = lambda a, b: (a, b)
+
+  def batches():
+    return iter([dict(zip(keys, b)) for b in stream])
+
+  def as_dicts(chunks):
+    return [{k: _norm_exp(s, col) for k, s, col in zip(keys, layout, b)}
+            for b in chunks]
+
+  for target in targets:
+    exp = as_dicts(rebatch_ref.chunked(sizes, target, layout))
+    for name, build in (
+        ('apply2.batch_size', lambda t: chainable.TreeTransform().apply(
+            fn=pair, input_keys=keys, output_keys=keys, batch_size=t)),
+        ('apply2.fn_batch_size', lambda t: chainable.TreeTransform().apply(
+            fn=pair, input_keys=keys, output_keys=keys, fn_batch_size=t,
+            batch_size=t)),
+        ('select2.batch_size', lambda t: chainable.TreeTransform().select(
+            keys, batch_size=t)),
+    ):
+      case = (name, tuple(sizes), target, layout)
+      _pipe_compare(
+          st, name, case, layout,
+          lambda: [_norm(b) for b in build(target).make().iterate(batches())],
+          exp)
+    # assign zips the re-batched outputs with the *inputs*, which is only
+    # meaningful when re-batching keeps the batch boundaries: every input
+    # batch already has the target size.
+    if sizes and all(s == target for s in sizes):
+      same = [{**d, 'c': d['a'], 'd': d['b']} for d in exp]
+      for name, build in (
+          ('assign2.batch_size', lambda t: chainable.TreeTransform().assign(
+              ('c', 'd'), fn=pair, input_keys=keys, batch_size=t)),
+          ('assign2.fn_batch_size', lambda t: chainable.TreeTransform().assign(
+              ('c', 'd'), fn=pair, input_keys=keys, fn_batch_size=t,
+              batch_size=t)),
+      ):
+        case = (name, tuple(sizes), target, layout)
+        _pipe_compare(
+            st, name, case, layout,
+            lambda: [_norm(b) for b in
+                     build(target).make().iterate(batches())], same)
+
+
+def _pipeline_unit(args):
+  size_seqs, targets, specs, pairs = args
+  st = Stats()
+  for sizes in size_seqs:
+    for spec in specs:
+      check_pipeline_single(st, tuple(sizes), targets, spec)
+    for layout in pairs:
+      check_pipeline_pair(st, tuple(sizes), targets, layout)
+  if size_seqs:
+    st.sample({'driver': 'apply/select/assign(batch_size, fn_batch_size)',
+               'input_batch_sizes': size_seqs[0], 'targets': list(targets),
+               'column specs': [str(s) for s in specs],
+               'pairs': [str(p) for p in pairs]})
+  return st
+
+
+UNITS = {}
+
+
+def _dispatch(item):
+  name, args = item
+  return UNITS[name](args)
+
+
+UNITS.update(scalar=_unit, mixed=_mixed_unit, rows=_rows_unit,
+             pipeline=_pipeline_unit)
 
 
 def run(ctx):
@@ -256,6 +563,15 @@ def run(ctx):
   targets = range(1, 6 if quick else 7)
   ncols = (1, 2, 3)
   seqs = list(enums.sequences(range(min_size, max_size + 1), max_batches))
+  # non-scalar rows: smaller size sequences, every layout of row_layouts()
+  r_batches, r_size, r_target = (3, 3, 4) if quick else (4, 4, 5)
+  variants = ((None, False), (None, True), (0, False)) + (
+      () if quick else ((0, True),))
+  rseqs = list(enums.sequences(range(min_size, r_size + 1), r_batches))
+  layouts = row_layouts(quick)
+  specs, pairs = pipeline_specs(quick), pipeline_pairs(quick)
+  p_batches, p_size = (3, 3) if quick else (4, 4)      # plain list column
+  q_batches, q_size, q_target = (3, 2, 3) if quick else (3, 3, 4)   # the others
   ctx.rule = (
       f'every sequence of <= {max_batches} input batches with sizes in '
       f'{min_size}..{max_size} x target 1..{max(targets)} x 1-3 columns x '
@@ -263,34 +579,73 @@ def run(ctx):
       'x pad in {None,0} x num_columns given/inferred through rebatched_args; '
       'numpy columns whose element type changes between input batches (int/float, '
       'bool/int, string widths) over every sequence of 2-3 (4) batches; '
-      'plus apply/select(batch_size, fn_batch_size) pipelines over every '
-      'sequence of <= 4 list batches; non-trivial = non-empty stream; '
-      'distinct = distinct (driver, sizes, target, columns, kinds, pad, infer)')
+      'COLUMNS WHOSE ROWS ARE NOT SCALARS (arrays of shape (n,d) / (n,d,e), '
+      'lists / tuples of n nested lists; row shapes '
+      f'{sorted({s[1] for l in layouts for s in l if s[1]})}): {len(layouts)} '
+      'layouts = every such column alone, every ordered pair of a wide array '
+      'column with a 1-D array / list / tuple / other-width array / nested-list '
+      f'column, and 3-column mixes, x every sequence of <= {r_batches} input '
+      f'batches with sizes {min_size}..{r_size} x target 1..{r_target} x '
+      f'(pad, num_columns inferred) in {variants} through rebatched_args '
+      '(padding an array column appends whole rows of the pad value); '
+      'plus apply/select(batch_size, fn_batch_size, fn_batch_size != batch_size) '
+      f'pipelines over every sequence of <= {p_batches} list batches with sizes '
+      f'1..{p_size} x target 1..4, and over every sequence of <= {q_batches} '
+      f'batches with sizes 1..{q_size} x target 1..{q_target} of one Key.SELF '
+      f'column of each of {len(specs)} further column specs (1-D array, (n,d) '
+      f'and (n,d,e) arrays, nested lists) and of {len(pairs)} two-column dict '
+      'layouts (wide array with 1-D array / list / nested list) through '
+      'apply/select with two keys (and assign when every input batch '
+      'has the target size); non-trivial = non-empty stream; '
+      'distinct = distinct (driver, sizes, target, columns/layout, kinds, pad, infer)')
   ctx.assumptions += [
-      'rows are unique tagged integers (column*1000+row) so alignment is observable',
+      'rows are unique tagged integers (column*1000+row; for non-scalar rows '
+      'column*100000+row*100+index inside the row) so alignment is observable',
       'zero-sized input batches are only enumerated in the thorough tier',
+      'a padded array column is expected to gain whole rows filled with the pad '
+      'value (row shape unchanged); list / tuple columns gain the pad value',
+      'tuple batches are not sent through the operators (TreeFn reads a tuple '
+      'as several outputs)',
   ]
-  units = [(u, tuple(targets), ncols, ctx.tier)
+  units = [('scalar', (u, tuple(targets), ncols, ctx.tier))
            for u in enums.chunks(ctx.shuffled(seqs), 64)]
-  ctx.pmap(_unit, units)
   mseqs = [q for q in enums.sequences(range(1, 4 if quick else 5),
                                       3 if quick else 4) if len(q) >= 2]
-  ctx.pmap(_mixed_unit, [(u, tuple(range(1, 5)))
-                         for u in enums.chunks(ctx.shuffled(mseqs), 32)])
-  pseqs = list(enums.sequences(range(1, 4 if quick else 5), 3 if quick else 4))
-  ctx.pmap(_pipeline_unit, [(u, tuple(range(1, 5)))
-                            for u in enums.chunks(ctx.shuffled(pseqs), 32)])
+  units += [('mixed', (u, tuple(range(1, 5))))
+            for u in enums.chunks(ctx.shuffled(mseqs), 16)]
+  units += [('rows', (u, tuple(range(1, r_target + 1)), layouts, variants))
+            for u in enums.chunks(ctx.shuffled(rseqs), 32 if quick else 128)]
+  pseqs = list(enums.sequences(range(1, p_size + 1), p_batches))
+  units += [('pipeline', (u, tuple(range(1, 5)), (LS(),), ()))
+            for u in enums.chunks(ctx.shuffled(pseqs), 16 if quick else 64)]
+  qseqs = list(enums.sequences(range(1, q_size + 1), q_batches))
+  units += [('pipeline', (u, tuple(range(1, q_target + 1)), specs, pairs))
+            for u in enums.chunks(ctx.shuffled(qseqs), 16 if quick else 64)]
+  ctx.pmap(_dispatch, units)
   ctx.notes['input_size_sequences'] = len(seqs)
+  ctx.notes['non_scalar_row_layouts'] = len(layouts)
+  ctx.notes['non_scalar_row_size_sequences'] = len(rseqs)
 
 
 def replay(ctx, data):
-  if 'mixed' in data['replay']:
-    _, sizes, target, variant = data['replay']['mixed']
+  rp = data['replay']
+  tup = lambda x: tuple(tup(y) for y in x) if isinstance(x, list) else x
+  if 'mixed' in rp:
+    _, sizes, target, variant = rp['mixed']
     check_mixed_dtype(ctx, tuple(sizes), target, variant)
     return
-  case = data['replay']['case']
-  if case[0] == 'rebatched_args':
-    _, sizes, target, ncol, kinds, pad, infer = case
-    check_rebatched(ctx, tuple(sizes), target, ncol, tuple(kinds), pad, infer)
-  else:
-    ctx.merge(_pipeline_unit(([tuple(case[1])], tuple(range(1, 5)))))
+  if 'rows' in rp:
+    _, sizes, target, layout, pad, infer = rp['rows']
+    check_rebatched_rows(ctx, tuple(sizes), target, tup(layout), pad, infer)
+    return
+  if 'pipe' in rp:
+    case = rp['pipe']
+    layout = tup(case[3])
+    if len(layout) == 1:
+      check_pipeline_single(ctx, tuple(case[1]), (case[2],) + tuple(case[4:5]),
+                            layout[0])
+    else:
+      check_pipeline_pair(ctx, tuple(case[1]), (case[2],), layout)
+    return
+  _, sizes, target, ncol, kinds, pad, infer = rp['case']
+  check_rebatched(ctx, tuple(sizes), target, ncol, tuple(kinds), pad, infer)
